@@ -1,7 +1,7 @@
 ---------------------------- MODULE Trace_Codecs ----------------------------
 (* Trace validation for C14: every recorded run of the yq binary on a case of Gen_Codecs is judged by the readers of
    Codecs.tla (direction E: the text yq wrote must denote the case's value), by JsonParse against the value the
-   specification's text denotes (direction D; D2: the second TOML spelling; D3: base64 text followed by a line break; D4: TOML with dotted keys) and against the value itself (direction R:
+   specification's text denotes (direction D; D2: the second TOML spelling; D3: base64 text followed by a line break; D4, D5: TOML with dotted keys) and against the value itself (direction R:
    value | encode | decode inside an expression).  Line: {"f":..,"i":..,"dir":..,"err":bool,"out":[code points]}. *)
 EXTENDS Gen_Codecs
 Lines == ndJsonDeserialize("codec_runs.ndjson")
@@ -17,7 +17,7 @@ Denoted(g, i, dir) == LET f == Base(g) IN
     [] f = "props" -> PropsAsJson(PropCases[i])
     [] f = "xml" -> XmlJ(g, XmlTrees[i])
     [] f = "lua" -> LuaValues[i]
-    [] f = "toml" -> IF dir \in {"D2", "D4"} THEN TomlValues[i] ELSE TomlOrder(TomlValues[i])
+    [] f = "toml" -> IF dir \in {"D2", "D4", "D5"} THEN TomlValues[i] ELSE TomlOrder(TomlValues[i])
 Verdict(p) ==
   IF p.err THEN "error"
   ELSE IF p.dir = "E" THEN LET bf == Base(p.f) IN
